@@ -467,7 +467,7 @@ def g_connect_interface(w, rng, st):
                 r = iface_ref(st, rng.choice(twins))
                 if r:
                     return {'svc': st.name(x), 'iface': r}
-    if subs and (not free or rng.random() < 0.4):
+    if subs and (not free or rng.random() < 0.55):
         cp = rng.choice(subs)
         r = iface_ref(st, cp)
         if r is None:
